@@ -88,6 +88,8 @@ def tz(v):
     """python/symbolic number -> z3 arithmetic term (Int or Real sort)."""
     if isinstance(v, SInt) or isinstance(v, SReal):
         return v.t
+    if isinstance(v, z3.ArithRef):
+        return v
     if isinstance(v, SBool):
         return z3.If(v.t, z3.IntVal(1), z3.IntVal(0))
     if isinstance(v, bool):
